@@ -70,6 +70,7 @@ type Layout struct {
 	Revisions    int    // 0/1, 2, 3
 	Order        string // "asc" | "desc" (descending object numbers, shuffled file order)
 	Unbalanced   bool   // first and last page directly under the root, the others one or two levels deeper
+	SplitPages   map[int]bool // when non-nil, Split applies only to these pages (0-based); the others keep one content stream
 	Shadow       bool   // every /Pages node above the holder of the inheritable attributes carries decoy /Resources and /MediaBox (the nearest definition must win)
 	PerPageFonts bool   // every page (with its forms) numbers its font resource names /F1.. by first use, so the same name means different fonts on different pages (requires Inherit=leaf)
 	Indirect     bool   // Resources, the Font dictionary, MediaBox and multi-stream /Contents arrays are indirect objects
@@ -683,6 +684,9 @@ func Plan(doc Doc, lay Layout) File {
 		}
 		addForms(i, fmt.Sprintf("form%d", i), p.Forms, rev)
 		nsplit := max1(lay.Split)
+		if lay.SplitPages != nil && !lay.SplitPages[i] {
+			nsplit = 1
+		}
 		var parts [][]byte
 		if !p.NoContents {
 			parts = splitContent(pageTokens[i], nsplit, dflt(lay.SplitWS, "left"), lay.SplitAt, eol)
